@@ -560,6 +560,32 @@ var c01FrontPinned = []frontPinned{
 	{"pinnullreq", `{"$schema": "http://json-schema.org/draft-07/schema#", "$ref": "#/definitions/R", "definitions": {
 	  "R": {"type": "object", "additionalProperties": false, "required": ["x"], "properties": {"x": {"type": ["string", "null"]}}}}}`,
 		[]string{`{"x": null}`, `{"x": "a"}`, `{}`, `{"x": 1}`}},
+	// `pattern` values around tools.RegexMatchesConstantString (anchored literal = constant; every metacharacter of its list, an
+	// escaped one, unanchored literals): model-vs-real VIR equality pins the helper's metacharacter list
+	{"pinpatterns", `{"$schema": "http://json-schema.org/draft-07/schema#", "$ref": "#/definitions/R", "definitions": {
+	  "R": {"type": "object", "additionalProperties": false, "properties": {
+	    "lit": {"type": "string", "pattern": "^math$"},
+	    "alt": {"type": "string", "pattern": "^instant|range$"},
+	    "altg": {"type": "string", "pattern": "^(a|b)$"},
+	    "dot": {"type": "string", "pattern": "^a.c$"},
+	    "plus": {"type": "string", "pattern": "^ab+$"},
+	    "star": {"type": "string", "pattern": "^ab*$"},
+	    "opt": {"type": "string", "pattern": "^ab?$"},
+	    "cls": {"type": "string", "pattern": "^[a-z]$"},
+	    "dig": {"type": "string", "pattern": "^\\d$"},
+	    "rep": {"type": "string", "pattern": "^a{2}$"},
+	    "ul": {"type": "string", "pattern": "math"},
+	    "ula": {"type": "string", "pattern": "^math"},
+	    "ulz": {"type": "string", "pattern": "math$"},
+	    "escd": {"type": "string", "pattern": "^a\\.b$"},
+	    "escp": {"type": "string", "pattern": "^a\\|b$"},
+	    "dash": {"type": "string", "pattern": "^a-b_c$"},
+	    "grp": {"type": "string", "pattern": "^(ab)$"},
+	    "rb": {"type": "string", "pattern": "^a]b$"},
+	    "rc": {"type": "string", "pattern": "^a}b$"}}}}}`,
+		[]string{`{"lit":"math","alt":"instant","altg":"a","dot":"abc","plus":"abb","star":"a","opt":"ab","cls":"q","dig":"7","rep":"aa","ul":"xmathx","ula":"maths","ulz":"xmath","escd":"a.b","escp":"a|b","dash":"a-b_c"}`,
+			`{"lit":"maths"}`, `{"alt":"range"}`, `{"alt":"instant|range"}`, `{"alt":"x"}`, `{"altg":"b"}`, `{"altg":"(a|b)"}`, `{"dot":"a.c"}`, `{"dot":"ac"}`,
+			`{"plus":"a"}`, `{"star":"abbb"}`, `{"opt":"abb"}`, `{"cls":"Q"}`, `{"dig":"x"}`, `{"rep":"a"}`, `{"ul":"no"}`, `{"escd":"axb"}`, `{"escp":"a"}`, `{"dash":"a-b_c"}`, `{"dash":"x"}`}},
 	{"pinflat", `{"$schema": "http://json-schema.org/draft-07/schema#", "$ref": "#/definitions/R", "definitions": {
 	  "R": {"type": "object", "additionalProperties": false, "required": ["code", "n"], "properties": {
 	    "code": {"type": "string", "minLength": 2, "maxLength": 4, "default": "ab"},
